@@ -24,6 +24,7 @@ import (
 	"pgregory.net/rapid"
 
 	"verifharness/ev"
+	"verifharness/loadsense"
 	_ "verifharness/sconn"
 	"verifharness/wire"
 )
@@ -92,12 +93,37 @@ func readResponse(c net.Conn, d time.Duration) (*wire.ParsedResp, []byte, error)
 // verdict and the scenario counts as inconclusive (skipped, classified), never as a violation.
 const overloaded = 100 * time.Millisecond
 
+// starved: the kernel reports that during more than this fraction of the scenario some runnable
+// task had no CPU (several runnable tasks per core). Every scenario has a 150..400 ms exit wait in
+// which real work must happen (responses of up to 256 KiB are written and read), so on such a
+// machine "did not finish within the wait" says nothing about hertz.
+const starved = 0.9
+
 var maxLate int64 // worst heartbeat lateness of the running scenario (ns)
 
 func beatLate() time.Duration { return time.Duration(atomic.LoadInt64(&maxLate)) }
 
+// cpuProbe measures CPU pressure while the scenario runs (see loadsense): the heartbeat only shows
+// that timers fire on time, not that the threads doing the work get a core. The tight bound is taken
+// only when both are quiet; tightTaken/tightSkipped count the two outcomes for the evidence.
+var (
+	cpuProbe                 *loadsense.Probe
+	tightTaken, tightSkipped int64
+)
+
+func quietMachine() bool {
+	q := beatLate() <= 20*time.Millisecond && (cpuProbe == nil || cpuProbe.Stalled() <= loadsense.Busy)
+	if q {
+		atomic.AddInt64(&tightTaken, 1)
+	} else {
+		atomic.AddInt64(&tightSkipped, 1)
+	}
+	return q
+}
+
 func runPlan(p *Plan) (msg string, log []string) {
 	atomic.StoreInt64(&maxLate, 0)
+	cpuProbe = loadsense.Start()
 	stopBeat := make(chan struct{})
 	go func() {
 		for {
@@ -117,6 +143,9 @@ func runPlan(p *Plan) (msg string, log []string) {
 	close(stopBeat)
 	if late := time.Duration(atomic.LoadInt64(&maxLate)); msg != "" && !strings.HasPrefix(msg, "harness:") && late > overloaded {
 		msg = fmt.Sprintf("harness: overloaded (a 1 ms sleep woke up %v late), verdict dropped: %s", late, msg)
+	}
+	if st := cpuProbe.Stalled(); msg != "" && !strings.HasPrefix(msg, "harness:") && st > starved {
+		msg = fmt.Sprintf("harness: overloaded (tasks waited for a CPU during %.0f%% of the scenario), verdict dropped: %s", 100*st, msg)
 	}
 	return msg, log
 }
@@ -416,8 +445,8 @@ func runPlanInner(p *Plan) (msg string, log []string) {
 	}
 	// with a quiet scheduler the bound is tight: a hook that overruns the exit wait time (by 300 ms
 	// here) must not hold Shutdown back
-	if elapsed > wait+200*time.Millisecond && beatLate() <= 20*time.Millisecond {
-		return fmt.Sprintf("Shutdown returned after %v although the exit wait time is %v and the scheduler was never more than %v late (hooks: %s)", elapsed, wait, beatLate(), p.Hook), log
+	if elapsed > wait+200*time.Millisecond && quietMachine() {
+		return fmt.Sprintf("Shutdown returned after %v although the exit wait time is %v, the scheduler was never more than %v late and tasks waited for a CPU during only %.0f%% of the scenario (hooks: %s)", elapsed, wait, beatLate(), 100*cpuProbe.Stalled(), p.Hook), log
 	}
 	_ = afterHook
 	// a Shutdown that returns before its deadline claims that every connection is finished: no request
@@ -589,6 +618,10 @@ func scenarios(t *testing.T, transport, unit string) {
 		nt, cls := classify(p)
 		rec.Case(nt, ev.HashString(fmt.Sprintf("%+v", *p)), cls...)
 		msg, log := runPlan(p)
+		if n := atomic.SwapInt64(&tightSkipped, 0); n > 0 {
+			rec.Class("tight-bound-not-taken-cpu-pressure-or-late-heartbeat", n)
+		}
+		atomic.StoreInt64(&tightTaken, 0)
 		if strings.HasPrefix(msg, "harness: overloaded") {
 			rec.Class("verdict-dropped-machine-overloaded", 1)
 		}
